@@ -466,7 +466,13 @@ void FileBasedTestbenchRecorder::onSimProcOutputOverridden(const hlim::NodePort 
 	HCL_ASSERT(name_it != m_outputToIoPinName.end());
 
 	std::stringstream str_state;
-	str_state << state;
+	for (size_t i = state.size(); i-- > 0; ) // operator<< knows nothing about high impedance and would print 'X'
+		if (state.get(sim::ExtendedConfig::HIGH_IMPEDANCE, i))
+			str_state << 'Z';
+		else if (!state.get(sim::ExtendedConfig::DEFINED, i))
+			str_state << 'X';
+		else
+			str_state << (state.get(sim::ExtendedConfig::VALUE, i) ? '1' : '0');
 
 	if (m_simulator.getCurrentPhase() == sim::WaitClock::DURING)
 		m_postDuringPhase.signalOverrides[name_it->second] = str_state.str();
